@@ -3,7 +3,7 @@ import ast
 import os
 import shutil
 
-from .. import coqrun, py2gallina as pg
+from .. import coqrun, py2gallina as pg, symex as X
 from ..core import Corr, Untranslatable, Violation
 
 ID = "C12"
@@ -30,64 +30,105 @@ def generate(ctx):
     out = ""
     path = ctx.src("direct/data/h5_data.py")
     tree, _ = pg.parse_file(path)
-    # ---------------- get_slice_data: context window ----------------
-    fn = _find_method(tree, "H5SliceData", "get_slice_data", path)
-    branch = None
-    for node in ast.walk(fn):
-        if isinstance(node, ast.If) and ast.unparse(node.test) == "self.kspace_context == 0":
-            if ast.unparse(node.body[0]) != "curr_data = data[key][slice_no]":
-                raise Untranslatable("get_slice_data: context-0 branch is not data[key][slice_no]", node.lineno, path)
-            branch = node.orelse
-    if branch is None:
-        raise Untranslatable("get_slice_data: `if self.kspace_context == 0` not found", fn.lineno, path)
-    env = {"slice_no": "s", "self.kspace_context": "c", "num_slices": "n", "curr_shape[0]": "len"}
-    tr = pg.ExprT(env, path, truthy_int=False)
+    # ---------------- get_slice_data: context window (value trees of a symbolic execution, vlib/symex.py) ----------------
+    S = lambda n: ("sym", n)
+    me = S("self")
+    ctxv = ("attr", me, "kspace_context")
+    sl = S("slice_no")
+    t, _n = X.run_function(tree, path, "H5SliceData.get_slice_data")
+    t = X.lift_ife(X.prune_raises(X.drop_do(t)))
+    dsets = [v for v in X.find_nodes(t, lambda v: v[0] == "sub" and v[2] == S("key") and v[1][0] == "call" and v[1][1] == ("attr", S("h5py"), "File"))]
+    if len(set(dsets)) != 1:
+        raise Untranslatable("get_slice_data: not one dataset data[key] read from the file", None, path)
+    ds = dsets[0]
+    file_n = {("sub", ("attr", ds, "shape"), X.const(0)), ("call", S("len"), (ds,), ())}
+    filt_n = ("call", ("attr", me, "get_num_slices"), (S("filename"),), ())
     sig = "(s c n len : Z)"
-    st = list(branch)
-    a0 = ast.unparse(st[0])
-    if a0 == "num_slices = self.get_num_slices(filename)":
-        src = "filtered_n"
-    elif a0 in ("num_slices = data[key].shape[0]", "num_slices = len(data[key])"):
-        src = "file_n"
-    else:
-        raise Untranslatable("get_slice_data: unexpected source of num_slices: %s" % a0, st[0].lineno, path)
-    out += "Definition w_num_slices (file_n filtered_n : Z) : Z := %s.\n" % src
-    s1 = st[1]
-    if not (isinstance(s1, ast.Assign) and ast.unparse(s1.targets[0]) == "curr_data" and isinstance(s1.value, ast.Subscript) and ast.unparse(s1.value.value) == "data[key]"):
-        raise Untranslatable("get_slice_data: expected curr_data = data[key][lo:hi]", s1.lineno, path)
-    sl = s1.value.slice
-    if isinstance(sl, ast.Tuple) and len(sl.elts) == 1:
-        sl = sl.elts[0]
-    if not (isinstance(sl, ast.Slice) and sl.step is None and sl.lower is not None and sl.upper is not None):
-        raise Untranslatable("get_slice_data: window slice outside subset", s1.lineno, path)
-    out += "Definition w_lo %s : Z := %s.\nDefinition w_hi %s : Z := %s.\n" % (sig, tr.z(sl.lower), sig, tr.z(sl.upper))
-    if ast.unparse(st[2]) != "curr_shape = curr_data.shape":
-        raise Untranslatable("get_slice_data: expected curr_shape = curr_data.shape", st[2].lineno, path)
-    g = st[3]
-    if not (isinstance(g, ast.If) and not g.orelse):
-        raise Untranslatable("get_slice_data: expected the zero-fill guard", g.lineno, path)
-    out += "Definition w_guard %s : bool := %s.\n" % (sig, tr.b(g.test))
     found = {}
-    for inner in g.body:
-        if not (isinstance(inner, ast.If) and not inner.orelse and len(inner.body) == 3):
-            raise Untranslatable("get_slice_data: zero-fill body outside subset", inner.lineno, path)
-        b0, b1, b2 = inner.body
-        if ast.unparse(b0) != "new_shape = list(curr_shape).copy()" or not (isinstance(b1, ast.Assign) and ast.unparse(b1.targets[0]) == "new_shape[0]"):
-            raise Untranslatable("get_slice_data: zero-fill shape statements outside subset", inner.lineno, path)
-        cat = ast.unparse(b2)
-        if cat == "curr_data = np.concatenate([np.zeros(new_shape, dtype=curr_data.dtype), curr_data], axis=0)":
-            kind = "pre"
-        elif cat == "curr_data = np.concatenate([curr_data, np.zeros(new_shape, dtype=curr_data.dtype)], axis=0)":
-            kind = "post"
-        else:
-            raise Untranslatable("get_slice_data: unexpected concatenate: %s" % cat[:80], b2.lineno, path)
-        found[kind] = (tr.b(inner.test), tr.z(b1.value))
-    if list(found) != ["pre", "post"]:
-        raise Untranslatable("get_slice_data: expected a leading then a trailing zero-fill", g.lineno, path)
+    seen_paths = set()
+    for conds, lf in X.leaves(t):
+        v = lf[1]
+        if not (v[0] == "tuple" and len(v[1]) == 2):
+            raise Untranslatable("get_slice_data: does not return (data, extra data)", None, path)
+        v = v[1][0]
+        zero_ctx = [pol for c, pol in conds if c == ("cmp", "==", ctxv, X.const(0))]
+        if len(set(zero_ctx)) != 1:
+            raise Untranslatable("get_slice_data: the path does not decide `kspace_context == 0`", None, path)
+        if zero_ctx[0]:
+            if v != ("sub", ds, sl):
+                raise Untranslatable("get_slice_data: context-0 branch is not data[key][slice_no]", None, path)
+            continue
+        if not (v[0] == "call" and v[1] == ("attr", S("np"), "swapaxes") and v[2][1:] == (X.const(0), X.const(1))):
+            raise Untranslatable("get_slice_data: the window is not returned with the slice axis moved to the second place", None, path)
+        v = v[2][0]
+        # peel the zero-fills: concatenate([zeros(shape{[0] := k}), x]) in front, concatenate([x, zeros(..)]) behind
+        fills = []
+        while v[0] == "call" and v[1] == ("attr", S("np"), "concatenate") and dict(v[3]).get("axis") == X.const(0) and v[2] and v[2][0][0] == "list" and len(v[2][0][1]) == 2:
+            a_, b_ = v[2][0][1]
+            def zlen(z):
+                """length along the slice axis of np.zeros(shape, ..): shape is the window's with entry 0 replaced, or [k, *rest]"""
+                if not (z[0] == "call" and z[1] == ("attr", S("np"), "zeros") and z[2]):
+                    return None
+                sh = z[2][0]
+                if sh[0] == "set" and sh[2] == X.const(0):
+                    return sh[3]
+                if sh[0] in ("list", "tuple") and len(sh[1]) >= 1 and all(x[0] == "star" for x in sh[1][1:]):
+                    return sh[1][0]
+                return None
+
+            if zlen(a_) is not None and zlen(b_) is None:
+                fills.append(("pre", zlen(a_)))
+                v = b_
+            elif zlen(b_) is not None and zlen(a_) is None:
+                fills.append(("post", zlen(b_)))
+                v = a_
+            else:
+                raise Untranslatable("get_slice_data: unexpected concatenate", None, path)
+        window = v
+        idx = window[2] if window[0] == "sub" and window[1] == ds else None
+        if idx is not None and idx[0] == "tuple" and len(idx[1]) == 1:
+            idx = idx[1][0]
+        if not (idx is not None and idx[0] == "slice" and idx[3] == X.NONE and X.NONE not in (idx[1], idx[2])):
+            raise Untranslatable("get_slice_data: expected curr_data = data[key][lo:hi]: %s" % X.show(window)[:100], None, path)
+        ns = [u for u in X.find_nodes(idx, lambda u: u in file_n or u == filt_n)]
+        src = "filtered_n" if filt_n in ns else "file_n"
+        nval = ns[0] if ns else None
+        wlen = {("sub", ("attr", window, "shape"), X.const(0)), ("call", S("len"), (window,), ())}
+        leaf = lambda u: "s" if u == sl else "c" if u == ctxv else "n" if (u == nval or u in file_n or u == filt_n) else "len" if u in wlen else None
+        em = X.Emit(leaf, path)
+        found.setdefault("src", set()).add(src)
+        found.setdefault("lo", set()).add(em.z(idx[1]))
+        found.setdefault("hi", set()).add(em.z(idx[2]))
+        # the tests on this path: guard (window shorter than 2c+1), then the two sides
+        tests = [(c, pol) for c, pol in conds if c != ("cmp", "==", ctxv, X.const(0)) and X.find_nodes(c, lambda u: u == sl or u in wlen)]
+        guard = [(c, pol) for c, pol in tests if X.find_nodes(c, lambda u: u in wlen)]
+        sides = [(c, pol) for c, pol in tests if not X.find_nodes(c, lambda u: u in wlen)]
+        if len(guard) != 1:
+            raise Untranslatable("get_slice_data: expected the zero-fill guard", None, path)
+        found.setdefault("guard", set()).add(em.b(guard[0][0]))
+        kinds = [k_ for k_, _l in fills]
+        if not guard[0][1]:
+            if fills or sides:
+                raise Untranslatable("get_slice_data: zero-fill outside the guard", None, path)
+            continue
+        if len(sides) != 2 or kinds != [k_ for k_, (c, pol) in zip(("post", "pre"), reversed(sides)) if pol][:len(kinds)] and sorted(kinds) != sorted(k_ for k_, (c, pol) in zip(("pre", "post"), sides) if pol):
+            raise Untranslatable("get_slice_data: expected a leading then a trailing zero-fill, each under its own test", None, path)
+        for (k_, (c, pol)) in zip(("pre", "post"), sides):
+            found.setdefault(k_ + "_cond", set()).add(em.b(c))
+            if pol != (k_ in kinds):
+                raise Untranslatable("get_slice_data: the %s zero-fill does not follow its test" % k_, None, path)
+        for k_, ln in fills:
+            found.setdefault(k_ + "_len", set()).add(em.z(ln))
+        seen_paths.add((sides[0][1], sides[1][1]))
+    for k_ in ("src", "lo", "hi", "guard", "pre_cond", "pre_len", "post_cond", "post_len"):
+        if len(found.get(k_, ())) != 1:
+            raise Untranslatable("get_slice_data: %s not determined uniquely over the paths: %s" % (k_, sorted(found.get(k_, ()))), None, path)
+    one = lambda k_: next(iter(found[k_]))
+    out += "Definition w_num_slices (file_n filtered_n : Z) : Z := %s.\n" % one("src")
+    out += "Definition w_lo %s : Z := %s.\nDefinition w_hi %s : Z := %s.\n" % (sig, one("lo"), sig, one("hi"))
+    out += "Definition w_guard %s : bool := %s.\n" % (sig, one("guard"))
     for kind in ("pre", "post"):
-        out += "Definition w_%s_cond %s : bool := %s.\nDefinition w_%s_len %s : Z := %s.\n" % (kind, sig, found[kind][0], kind, sig, found[kind][1])
-    if ast.unparse(st[4]) != "curr_data = np.swapaxes(curr_data, 0, 1)" or len(st) != 5:
-        raise Untranslatable("get_slice_data: trailing statements outside subset", st[-1].lineno, path)
+        out += "Definition w_%s_cond %s : bool := %s.\nDefinition w_%s_len %s : Z := %s.\n" % (kind, sig, one(kind + "_cond"), kind, sig, one(kind + "_len"))
 
     # ---------------- parse_filenames_data: range bookkeeping ----------------
     fn = _find_method(tree, "H5SliceData", "parse_filenames_data", path)
